@@ -182,7 +182,7 @@ class Policy:
                 for k, oid in enumerate(self.spawn_order):
                     if self.pending[oid]:
                         return {"send": [oid, self.pending[oid].pop(0)]}
-            if self.closed_at_end and not self.sent_closed:
+            if self.closed_at_end and not self.sent_closed and not view.get("switched"):
                 self.sent_closed = True
                 return {"closed": 1}
             return None
